@@ -309,3 +309,7 @@ MmapLog<'static, ItemType, MAX_STREAMS> {
     type ItemType            = ItemType;
     type DerivedItemType     = &'static ItemType;
 }
+
+/// verification hook (compiled only under `cargo kani` or `--cfg reactive_mutiny_verif`): harnesses live outside this repository
+#[cfg(any(kani, reactive_mutiny_verif))]
+pub(crate) mod verif_hooks { include!(concat!(env!("REACTIVE_MUTINY_VERIF_DIR"), "/kani/multi_mmap_log.rs")); }
